@@ -200,7 +200,9 @@ def build_measurements(dom, specs, truth, rng):
         Q, A = make_Q(s.get('q', 'I'), n, rng)
         noise = float(s.get('noise', 1.0))
         y = A @ x
-        if not s.get('exact', False):
+        if s.get('y') is not None:
+            y = np.array(s['y'], dtype=float)          # explicit answers (regression cases of known findings)
+        elif not s.get('exact', False):
             y = y + noise * rng.normal(size=A.shape[0])
         y = np.array(y, dtype=float)
         pt = s.get('projtype', 'tuple')
